@@ -866,7 +866,19 @@ rv = .false.
                     )
 
                 if subprogram == "function":
-                    arg_c_decl.append(ast.bind_c(name=key, params=None))
+                    # The result of the callback, not of the function
+                    # which has the callback as an argument.
+                    if arg.is_pointer():
+                        arg_c_decl.append("type(C_PTR) :: " + key)
+                        self.update_f_module(
+                            modules, imports, dict(iso_c_binding=["C_PTR"]))
+                    else:
+                        rtypemap = arg.typemap
+                        arg_c_decl.append("{} :: {}".format(
+                            rtypemap.f_c_type or rtypemap.f_type, key))
+                        self.update_f_module(
+                            modules, imports,
+                            rtypemap.f_c_module or rtypemap.f_module)
                 arguments = ",\t ".join(arg_f_names)
                 if node.options.literalinclude:
                     iface.append("! start abstract " + key)
